@@ -93,6 +93,8 @@ func (s c05Step) String() string {
 	return fmt.Sprintf("%s(%q)", s.op, s.p1)
 }
 
+func vfPick64(r *vfRand, l []int64) int64 { return l[r.Intn(len(l))] }
+
 func vfPick2(r *vfRand, l [][2]string) (string, string) {
 	x := l[r.Intn(len(l))]
 	return x[0], x[1]
@@ -201,6 +203,10 @@ func c05Gen(r *vfRand, n int, unpriv, relative bool) []c05Step {
 			s.p1 = vfPick(r, []string{"a", "b", "c", "d/x", "d/y", "nope", "d"})
 		case "Chtimes":
 			s.t = 1400000000 + int64(r.Intn(100000))
+			if r.Intn(4) == 0 {
+				// times on the far side of 2038 and near the end of the 32-bit range, and near the epoch
+				s.t = vfPick64(r, []int64{1 << 31, 1<<31 + 12345, 3000000000 + int64(r.Intn(1000)), 1<<32 - 10, 1, 86400})
+			}
 		case "Symlink":
 			// target text: relative name, or a path inside the tree, or dangling
 			s.verbatimTarget = r.Bool()
